@@ -392,3 +392,479 @@ Qed.
 
 Theorem serve_no_panic c : backend_total c = true -> serve c <> Panicked.
 Proof. intros T. destruct (serve_complete c T) as (s & cs & -> & _). discriminate. Qed.
+
+(* ------------------------------------------------------------------ *)
+(** * Malformed requests are refused with a 4xx before any mutation    *)
+
+Definition hrefused (h : hres N) : Prop :=
+  exists c, h = HErr (EDirect c) [] /\ 400 <= c /\ c < 500.
+
+Definition refused (o : outcome) : Prop :=
+  exists c, o = Resp c [] /\ 400 <= c /\ c < 500.
+
+Lemma finish_refused h : hrefused h -> refused (finish h).
+Proof.
+  intros (c & -> & H1 & H2). exists c. split; [|lia]. simpl. apply write_header_in_range; lia.
+Qed.
+
+Lemma hrefused_bad_request : hrefused bad_request.
+Proof. exists 400. repeat split; lia. Qed.
+
+Lemma hrefused_code c : 400 <= c -> c < 500 -> hrefused (HErr (EDirect c) []).
+Proof. intros; exists c; auto. Qed.
+
+Lemma m_is_eq r m : m_is r m = true -> r_method r = m.
+Proof. apply String.eqb_eq. Qed.
+
+(** ** decoding facts *)
+
+Lemma decode_not_xml {A} r (um : xtree -> option A) :
+  is_content_xml r = false -> decode_xml_request r um = DxBad.
+Proof. intros H. unfold decode_xml_request. rewrite H. reflexivity. Qed.
+
+Definition dx_failed {A} (d : dx A) : Prop := match d with DxOk _ => False | _ => True end.
+
+Lemma decode_failed_cases {A} r (um : xtree -> option A) :
+  (is_content_xml r = false \/ r_xml r = XSyntax \/ r_xml r = XEmpty \/
+   (exists t, r_xml r = XTree t /\ um t = None)) ->
+  dx_failed (decode_xml_request r um).
+Proof.
+  unfold decode_xml_request. intros [H|[H|[H|(t & H & U)]]]; try rewrite H; simpl; auto;
+    destruct (negb (is_content_xml r)); simpl; auto. rewrite U. exact I.
+Qed.
+
+Lemma um_struct_wrong_name {T} ns l fa fk ft d (acc : T) ns' l' attrs kids :
+  str_empty ns = false ->
+  (String.eqb ns' ns && String.eqb l' l) = false ->
+  um_struct (Some (ns, l)) fa fk ft d acc (XElem ns' l' attrs kids) = None.
+Proof.
+  intros E0 H. unfold um_struct, chk. destruct (MAXD <=? d); [reflexivity|].
+  unfold name_ok. rewrite E0.
+  destruct (String.eqb l l') eqn:E1; simpl; [|reflexivity].
+  destruct (String.eqb ns ns') eqn:E2; [|reflexivity].
+  apply String.eqb_eq in E1, E2. subst. rewrite !String.eqb_refl in H. discriminate.
+Qed.
+
+Lemma um_nonelem {T} xn fa fk ft d (acc : T) t :
+  is_elem t = false -> um_struct xn fa fk ft d acc t = None.
+Proof. destruct t; simpl; try discriminate; reflexivity. Qed.
+
+(** a root that is not the expected one makes every root decoder fail *)
+Definition root_is (t : xtree) (ns l : string) : bool := kid_is t ns l.
+
+Lemma um_propfind_root t : root_is t NS_DAV "propfind" = false -> um_propfind 0 propfind_zero t = None.
+Proof.
+  destruct t as [ns l a k| |]; intros H; try reflexivity.
+  apply um_struct_wrong_name; [reflexivity|exact H].
+Qed.
+Lemma um_propupdate_root t : root_is t NS_DAV "propertyupdate" = false -> um_propupdate 0 propupdate_zero t = None.
+Proof.
+  destruct t as [ns l a k| |]; intros H; try reflexivity.
+  apply um_struct_wrong_name; [reflexivity|exact H].
+Qed.
+Lemma um_mkcol_root card t : root_is t NS_DAV "mkcol" = false -> um_mkcol card 0 mkcol_zero t = None.
+Proof.
+  destruct t as [ns l a k| |]; intros H; try reflexivity.
+  apply um_struct_wrong_name; [reflexivity|exact H].
+Qed.
+Lemma um_cal_report_root u t :
+  root_is t NS_CAL "calendar-query" = false -> root_is t NS_CAL "calendar-multiget" = false ->
+  um_cal_report u 0 t = None.
+Proof. unfold root_is, um_cal_report. intros -> ->. reflexivity. Qed.
+Lemma um_card_report_root u t :
+  root_is t NS_CARD "addressbook-query" = false -> root_is t NS_CARD "addressbook-multiget" = false ->
+  um_card_report u 0 t = None.
+Proof. unfold root_is, um_card_report. intros -> ->. reflexivity. Qed.
+
+(** ** the shared handler *)
+
+Lemma handle_propfind_refused b r :
+  decode_propfind_request r = None \/ bad_depth r = true -> hrefused (handle_propfind b r).
+Proof.
+  unfold handle_propfind. intros [H|H].
+  - rewrite H. apply hrefused_bad_request.
+  - destruct (decode_propfind_request r); [|apply hrefused_bad_request].
+    unfold bad_depth in H. apply andb_true_iff in H. destruct H as [H1 H2].
+    apply negb_true_iff in H1. rewrite H1.
+    destruct (parse_depth (r_depth r)); [discriminate|]. apply hrefused_bad_request.
+Qed.
+
+Lemma handle_proppatch_refused b r :
+  dx_failed (decode_xml_request r (um_propupdate 0 propupdate_zero)) -> hrefused (handle_proppatch b r).
+Proof.
+  unfold handle_proppatch. destruct (decode_xml_request r _); simpl; intros H;
+    [contradiction|apply hrefused_bad_request|apply hrefused_bad_request].
+Qed.
+
+Lemma handle_copymove_refused b r :
+  bad_depth r = true \/ bad_overwrite r = true \/ bad_dest r = true -> hrefused (handle_copymove b r).
+Proof.
+  unfold handle_copymove, bad_dest. intros H.
+  destruct (r_dest r) eqn:ED; try apply hrefused_bad_request.
+  destruct H as [H|[H|H]]; [| |discriminate].
+  - destruct (if str_empty (r_overwrite r) then _ else _); [|apply hrefused_bad_request].
+    unfold bad_depth in H. apply andb_true_iff in H. destruct H as [H1 H2].
+    apply negb_true_iff in H1. rewrite H1.
+    destruct (parse_depth (r_depth r)); [discriminate|]. apply hrefused_bad_request.
+  - unfold bad_overwrite in H. apply andb_true_iff in H. destruct H as [H1 H2].
+    apply negb_true_iff in H1. rewrite H1.
+    destruct (parse_overwrite (r_overwrite r)); [discriminate|]. apply hrefused_bad_request.
+Qed.
+
+Lemma internal_propfind b r : r_method r = "PROPFIND" -> internal_handle b r = handle_propfind b r.
+Proof. intros H. unfold internal_handle. rewrite H. reflexivity. Qed.
+Lemma internal_proppatch b r : r_method r = "PROPPATCH" -> internal_handle b r = handle_proppatch b r.
+Proof. intros H. unfold internal_handle. rewrite H. reflexivity. Qed.
+Lemma internal_copy b r : r_method r = "COPY" -> internal_handle b r = handle_copymove b r.
+Proof. intros H. unfold internal_handle. rewrite H. reflexivity. Qed.
+Lemma internal_move b r : r_method r = "MOVE" -> internal_handle b r = handle_copymove b r.
+Proof. intros H. unfold internal_handle. rewrite H. reflexivity. Qed.
+Lemma internal_put b r : r_method r = "PUT" -> internal_handle b r = bk_put b r.
+Proof. intros H. unfold internal_handle. rewrite H. reflexivity. Qed.
+Lemma internal_mkcol b r : r_method r = "MKCOL" -> internal_handle b r = hmap (fun _ => 201) (bk_mkcol b r).
+Proof. intros H. unfold internal_handle. rewrite H. reflexivity. Qed.
+
+(** what makes DecodePropFindRequest fail *)
+Lemma decode_propfind_none r :
+  (is_content_xml r = false /\ r_body_empty r = false) \/
+  (is_content_xml r = true /\ (r_xml r = XSyntax \/ exists t, r_xml r = XTree t /\ root_is t NS_DAV "propfind" = false)) ->
+  decode_propfind_request r = None.
+Proof.
+  unfold decode_propfind_request. intros [[H1 H2]|[H1 H2]]; rewrite H1.
+  - rewrite H2. reflexivity.
+  - unfold decode_xml_request. rewrite H1. simpl.
+    destruct H2 as [H2|(t & H2 & H3)]; rewrite H2; [reflexivity|].
+    rewrite um_propfind_root; auto.
+Qed.
+
+(** ** PUT, MKCOL on the CalDAV / CardDAV backends *)
+
+Lemma obj_put_refused n mime ok put r :
+  r_media_err r = true \/ String.eqb (r_media r) mime = false \/ ok = false ->
+  obj_put n mime ok put r = bad_request.
+Proof.
+  unfold obj_put. intros H. destruct (r_media_err r); [reflexivity|].
+  destruct (String.eqb (r_media r) mime); simpl; [|reflexivity].
+  destruct ok; simpl; [|reflexivity]. destruct H as [H|[H|H]]; discriminate.
+Qed.
+
+Lemma mkcol_refused (ty3 : bool) (create : hres unit) {A} (d : dx A) (test : A -> bool) (empty : bool) :
+  empty = false -> dx_failed d ->
+  hrefused (hmap (fun _ => 201)
+    (if negb ty3 then HErr (EDirect 403) []
+     else if empty then create
+     else match d with DxOk m => if test m then create else bad_request | _ => bad_request end)).
+Proof.
+  intros -> F. destruct ty3; simpl; [|apply hrefused_code; lia].
+  destruct d; simpl in *; [contradiction| |]; apply hrefused_bad_request.
+Qed.
+
+(** ** assembling: the header, content-type, document-root and object classes *)
+
+Ltac btrue H :=
+  repeat match type of H with
+         | (_ && _) = true => let H1 := fresh H in apply andb_true_iff in H; destruct H as [H1 H]; try btrue H1
+         | negb _ = true => apply negb_true_iff in H
+         end.
+
+Lemma copy_or_move_cases r : copy_or_move r = true -> r_method r = "COPY" \/ r_method r = "MOVE".
+Proof. unfold copy_or_move. intros H. apply orb_true_iff in H. destruct H as [H|H]; apply m_is_eq in H; auto. Qed.
+
+(** the document classes, for a handler that reads its body with [um] and expects [ok] as root *)
+Lemma xml_class_failed {A} r (um : xtree -> option A) (required : bool) (ok : string -> string -> bool) :
+  (forall t, match t with XElem ns l _ _ => ok ns l = false | _ => True end -> um t = None) ->
+  match r_xml r with
+  | XSyntax => true
+  | XEmpty => required
+  | XTree (XElem ns local _ _) => negb (ok ns local)
+  | XTree _ => true
+  end = true ->
+  required = true ->
+  dx_failed (decode_xml_request r um).
+Proof.
+  intros U H R. apply decode_failed_cases.
+  destruct (r_xml r) as [| |t] eqn:E; auto.
+  right; right; right. exists t. split; auto. apply U.
+  destruct t; auto. apply negb_true_iff in H. exact H.
+Qed.
+
+Section Generic.
+  (** the part of the argument that is the same for the three backends *)
+  Variable b : backend.
+  Variable r : request.
+
+  Lemma generic_headers (cm_ok : bool) :
+    (bad_depth r && (m_is r "PROPFIND" || (copy_or_move r && cm_ok))) ||
+    (cm_ok && copy_or_move r && (bad_overwrite r || bad_dest r)) = true ->
+    String.eqb (r_method r) "REPORT" = false /\ hrefused (internal_handle b r).
+  Proof.
+    intros H. apply orb_true_iff in H. destruct H as [H|H].
+    - apply andb_true_iff in H. destruct H as [HD H]. apply orb_true_iff in H. destruct H as [H|H].
+      + apply m_is_eq in H. split; [rewrite H; reflexivity|].
+        rewrite internal_propfind by auto. apply handle_propfind_refused; auto.
+      + apply andb_true_iff in H. destruct H as [H _]. apply copy_or_move_cases in H.
+        destruct H as [H|H]; (split; [rewrite H; reflexivity|]);
+          [rewrite internal_copy by auto|rewrite internal_move by auto]; apply handle_copymove_refused; auto.
+    - apply andb_true_iff in H. destruct H as [H HB]. apply andb_true_iff in H. destruct H as [_ H].
+      apply copy_or_move_cases in H. apply orb_true_iff in HB.
+      destruct H as [H|H]; (split; [rewrite H; reflexivity|]);
+        [rewrite internal_copy by auto|rewrite internal_move by auto]; apply handle_copymove_refused; tauto.
+  Qed.
+
+  Lemma generic_propfind_ctype :
+    m_is r "PROPFIND" = true -> is_content_xml r = false -> r_body_empty r = false ->
+    String.eqb (r_method r) "REPORT" = false /\ hrefused (internal_handle b r).
+  Proof.
+    intros H X E. apply m_is_eq in H. split; [rewrite H; reflexivity|].
+    rewrite internal_propfind by auto. apply handle_propfind_refused. left.
+    apply decode_propfind_none. left; auto.
+  Qed.
+
+  Lemma generic_propfind_xml :
+    m_is r "PROPFIND" = true -> is_content_xml r = true ->
+    match r_xml r with
+    | XSyntax => true
+    | XEmpty => false
+    | XTree (XElem ns local _ _) => negb (String.eqb ns NS_DAV && String.eqb local "propfind")
+    | XTree _ => true
+    end = true ->
+    String.eqb (r_method r) "REPORT" = false /\ hrefused (internal_handle b r).
+  Proof.
+    intros H X E. apply m_is_eq in H. split; [rewrite H; reflexivity|].
+    rewrite internal_propfind by auto. apply handle_propfind_refused. left.
+    apply decode_propfind_none. right. split; auto.
+    destruct (r_xml r) as [| |t]; try discriminate; auto.
+    right. exists t. split; auto. destruct t; auto. apply negb_true_iff in E. exact E.
+  Qed.
+
+  Lemma generic_proppatch :
+    m_is r "PROPPATCH" = true ->
+    dx_failed (decode_xml_request r (um_propupdate 0 propupdate_zero)) ->
+    String.eqb (r_method r) "REPORT" = false /\ hrefused (internal_handle b r).
+  Proof.
+    intros H F. apply m_is_eq in H. split; [rewrite H; reflexivity|].
+    rewrite internal_proppatch by auto. apply handle_proppatch_refused; auto.
+  Qed.
+End Generic.
+
+Lemma proppatch_failed r :
+  is_content_xml r = false \/
+  match r_xml r with
+  | XSyntax => true
+  | XEmpty => true
+  | XTree (XElem ns local _ _) => negb (String.eqb ns NS_DAV && String.eqb local "propertyupdate")
+  | XTree _ => true
+  end = true ->
+  dx_failed (decode_xml_request r (um_propupdate 0 propupdate_zero)).
+Proof.
+  intros [H|H]; [apply decode_failed_cases; auto|].
+  eapply (xml_class_failed r _ true (fun ns l => String.eqb ns NS_DAV && String.eqb l "propertyupdate")); auto.
+  intros t Ht. apply um_propupdate_root. destruct t; auto.
+Qed.
+
+Ltac clean H := repeat (progress (rewrite ?andb_true_r, ?andb_false_r, ?orb_false_r in H; simpl in H)).
+Ltac meth H E := apply m_is_eq in H; rename H into E.
+
+Lemma cal_basic_refused env r :
+  cal_total env = true -> malformed_basic (CCal env r) = true -> refused (serve_caldav env r).
+Proof.
+  intros T M. assert (HB : ce_has_backend env = true) by (unfold cal_total in T; split_total T; auto).
+  unfold malformed_basic in M. apply andb_true_iff in M. destruct M as [WK M].
+  apply negb_true_iff in WK. simpl in WK.
+  unfold serve_caldav. rewrite HB, WK. simpl.
+  assert (G : String.eqb (r_method r) "REPORT" = false /\ hrefused (internal_handle (cal_backend env) r)
+              \/ String.eqb (r_method r) "REPORT" = true /\ hrefused (cal_handle_report env r)).
+  { apply orb_true_iff in M. destruct M as [M|MO].
+    apply orb_true_iff in M. destruct M as [M|MX].
+    apply orb_true_iff in M. destruct M as [MH|MC].
+    - left. unfold m_headers in MH. simpl in MH. apply generic_headers with (cm_ok := true).
+      revert MH. clear. destruct (bad_depth r), (m_is r "PROPFIND"), (copy_or_move r), (bad_overwrite r), (bad_dest r); simpl; auto.
+    - unfold m_ctype in MC. simpl in MC.
+      clean MC.
+      apply orb_true_iff in MC. destruct MC as [MC|MP].
+      apply orb_true_iff in MC. destruct MC as [MC|MF].
+      + (* XML required, other content type *)
+        apply andb_true_iff in MC. destruct MC as [RQ NX]. apply negb_true_iff in NX.
+        unfold xml_required in RQ. simpl in RQ. clean RQ.
+        apply orb_true_iff in RQ. destruct RQ as [RQ|RQ]. apply orb_true_iff in RQ. destruct RQ as [RQ|RQ].
+        * left. apply generic_proppatch; auto. apply proppatch_failed; auto.
+        * right. split; [exact RQ|]. unfold cal_handle_report. rewrite decode_not_xml by auto. apply hrefused_bad_request.
+        * left. apply andb_true_iff in RQ. destruct RQ as [RQ NE]. apply negb_true_iff in NE. meth RQ E.
+          split; [rewrite E; reflexivity|]. rewrite internal_mkcol by auto. simpl. unfold cal_mkcol.
+          apply mkcol_refused; auto. rewrite decode_not_xml by auto. exact I.
+      + left. btrue MF. apply generic_propfind_ctype; auto.
+      + left. apply andb_true_iff in MP. destruct MP as [MP MB]. meth MP E.
+        split; [rewrite E; reflexivity|]. rewrite internal_put by auto. simpl.
+        rewrite obj_put_refused; [apply hrefused_bad_request|].
+        apply orb_true_iff in MB. destruct MB as [MB|MB]; [auto|apply negb_true_iff in MB; auto].
+    - unfold m_xml in MX. simpl in MX. apply andb_true_iff in MX. destruct MX as [RD MX].
+      unfold xml_read, xml_required in RD. simpl in RD. clean RD.
+      apply orb_true_iff in RD. destruct RD as [RQ|RP].
+      apply orb_true_iff in RQ. destruct RQ as [RQ|RQ]. apply orb_true_iff in RQ. destruct RQ as [RQ|RQ].
+      + left. apply generic_proppatch; auto. apply proppatch_failed. right.
+        pose proof RQ as E. apply m_is_eq in E.
+        unfold xml_required, expected_root, m_is in MX. simpl in MX. rewrite E in MX. simpl in MX.
+        destruct (r_xml r) as [| |[ns l a k| |]]; auto.
+      + right. split; [exact RQ|]. unfold cal_handle_report.
+        pose proof RQ as E. apply m_is_eq in E.
+        unfold xml_required, expected_root, m_is in MX. simpl in MX. rewrite E in MX. simpl in MX.
+        assert (F : dx_failed (decode_xml_request r (um_cal_report (r_url_ok r) 0))).
+        { eapply (xml_class_failed r _ true (fun ns l => (String.eqb ns NS_CAL && String.eqb l "calendar-query") || (String.eqb ns NS_CAL && String.eqb l "calendar-multiget"))); auto.
+          intros t Ht. destruct t; try reflexivity. apply orb_false_iff in Ht. destruct Ht.
+          apply um_cal_report_root; auto. }
+        destruct (decode_xml_request r _); [contradiction| |]; apply hrefused_bad_request.
+      + left. apply andb_true_iff in RQ. destruct RQ as [RQ NE]. pose proof NE as NE'. apply negb_true_iff in NE. meth RQ E.
+        split; [rewrite E; reflexivity|]. rewrite internal_mkcol by auto. simpl. unfold cal_mkcol.
+        apply mkcol_refused; auto.
+        unfold xml_required, expected_root, m_is in MX. simpl in MX. rewrite E, NE in MX. simpl in MX.
+        eapply (xml_class_failed r _ true (fun ns l => String.eqb ns NS_DAV && String.eqb l "mkcol")); auto.
+        intros t Ht. apply um_mkcol_root. destruct t; auto.
+      + left. apply andb_true_iff in RP. destruct RP as [RP X]. pose proof RP as E. apply m_is_eq in E.
+        apply generic_propfind_xml; auto.
+        unfold xml_required, expected_root, m_is in MX. simpl in MX. rewrite E in MX. simpl in MX. exact MX.
+    - left. unfold m_object in MO. simpl in MO. clean MO.
+      apply andb_true_iff in MO. destruct MO as [MP MB]. meth MP E.
+      split; [rewrite E; reflexivity|]. rewrite internal_put by auto. simpl.
+      rewrite obj_put_refused; [apply hrefused_bad_request|]. apply negb_true_iff in MB. auto. }
+  destruct G as [[E G]|[E G]]; rewrite E; apply finish_refused; exact G.
+Qed.
+
+Lemma card_basic_refused env r :
+  card_total env = true -> malformed_basic (CCard env r) = true -> refused (serve_carddav env r).
+Proof.
+  intros T M. assert (HB : ae_has_backend env = true) by (unfold card_total in T; split_total T; auto).
+  unfold malformed_basic in M. apply andb_true_iff in M. destruct M as [WK M].
+  apply negb_true_iff in WK. simpl in WK.
+  unfold serve_carddav. rewrite HB, WK. simpl.
+  assert (G : String.eqb (r_method r) "REPORT" = false /\ hrefused (internal_handle (card_backend env) r)
+              \/ String.eqb (r_method r) "REPORT" = true /\ hrefused (card_handle_report env r)).
+  { apply orb_true_iff in M. destruct M as [M|MO].
+    apply orb_true_iff in M. destruct M as [M|MX].
+    apply orb_true_iff in M. destruct M as [MH|MC].
+    - left. unfold m_headers in MH. simpl in MH. apply generic_headers with (cm_ok := true).
+      revert MH. clear. destruct (bad_depth r), (m_is r "PROPFIND"), (copy_or_move r), (bad_overwrite r), (bad_dest r); simpl; auto.
+    - unfold m_ctype in MC. simpl in MC.
+      clean MC.
+      apply orb_true_iff in MC. destruct MC as [MC|MP].
+      apply orb_true_iff in MC. destruct MC as [MC|MF].
+      + (* XML required, other content type *)
+        apply andb_true_iff in MC. destruct MC as [RQ NX]. apply negb_true_iff in NX.
+        unfold xml_required in RQ. simpl in RQ. clean RQ.
+        apply orb_true_iff in RQ. destruct RQ as [RQ|RQ]. apply orb_true_iff in RQ. destruct RQ as [RQ|RQ].
+        * left. apply generic_proppatch; auto. apply proppatch_failed; auto.
+        * right. split; [exact RQ|]. unfold card_handle_report. rewrite decode_not_xml by auto. apply hrefused_bad_request.
+        * left. apply andb_true_iff in RQ. destruct RQ as [RQ NE]. apply negb_true_iff in NE. meth RQ E.
+          split; [rewrite E; reflexivity|]. rewrite internal_mkcol by auto. simpl. unfold card_mkcol.
+          apply mkcol_refused; auto. rewrite decode_not_xml by auto. exact I.
+      + left. btrue MF. apply generic_propfind_ctype; auto.
+      + left. apply andb_true_iff in MP. destruct MP as [MP MB]. meth MP E.
+        split; [rewrite E; reflexivity|]. rewrite internal_put by auto. simpl.
+        rewrite obj_put_refused; [apply hrefused_bad_request|].
+        apply orb_true_iff in MB. destruct MB as [MB|MB]; [auto|apply negb_true_iff in MB; auto].
+    - unfold m_xml in MX. simpl in MX. apply andb_true_iff in MX. destruct MX as [RD MX].
+      unfold xml_read, xml_required in RD. simpl in RD. clean RD.
+      apply orb_true_iff in RD. destruct RD as [RQ|RP].
+      apply orb_true_iff in RQ. destruct RQ as [RQ|RQ]. apply orb_true_iff in RQ. destruct RQ as [RQ|RQ].
+      + left. apply generic_proppatch; auto. apply proppatch_failed. right.
+        pose proof RQ as E. apply m_is_eq in E.
+        unfold xml_required, expected_root, m_is in MX. simpl in MX. rewrite E in MX. simpl in MX.
+        destruct (r_xml r) as [| |[ns l a k| |]]; auto.
+      + right. split; [exact RQ|]. unfold card_handle_report.
+        pose proof RQ as E. apply m_is_eq in E.
+        unfold xml_required, expected_root, m_is in MX. simpl in MX. rewrite E in MX. simpl in MX.
+        assert (F : dx_failed (decode_xml_request r (um_card_report (r_url_ok r) 0))).
+        { eapply (xml_class_failed r _ true (fun ns l => (String.eqb ns NS_CARD && String.eqb l "addressbook-query") || (String.eqb ns NS_CARD && String.eqb l "addressbook-multiget"))); auto.
+          intros t Ht. destruct t; try reflexivity. apply orb_false_iff in Ht. destruct Ht.
+          apply um_card_report_root; auto. }
+        destruct (decode_xml_request r _); [contradiction| |]; apply hrefused_bad_request.
+      + left. apply andb_true_iff in RQ. destruct RQ as [RQ NE]. pose proof NE as NE'. apply negb_true_iff in NE. meth RQ E.
+        split; [rewrite E; reflexivity|]. rewrite internal_mkcol by auto. simpl. unfold card_mkcol.
+        apply mkcol_refused; auto.
+        unfold xml_required, expected_root, m_is in MX. simpl in MX. rewrite E, NE in MX. simpl in MX.
+        eapply (xml_class_failed r _ true (fun ns l => String.eqb ns NS_DAV && String.eqb l "mkcol")); auto.
+        intros t Ht. apply um_mkcol_root. destruct t; auto.
+      + left. apply andb_true_iff in RP. destruct RP as [RP X]. pose proof RP as E. apply m_is_eq in E.
+        apply generic_propfind_xml; auto.
+        unfold xml_required, expected_root, m_is in MX. simpl in MX. rewrite E in MX. simpl in MX. exact MX.
+    - left. unfold m_object in MO. simpl in MO. clean MO.
+      apply andb_true_iff in MO. destruct MO as [MP MB]. meth MP E.
+      split; [rewrite E; reflexivity|]. rewrite internal_put by auto. simpl.
+      rewrite obj_put_refused; [apply hrefused_bad_request|]. apply negb_true_iff in MB. auto. }
+  destruct G as [[E G]|[E G]]; rewrite E; apply finish_refused; exact G.
+Qed.
+
+
+Lemma dav_basic_refused env r :
+  fs_total env = true -> malformed_basic (CDav env r) = true -> refused (serve_dav env r).
+Proof.
+  intros T M. assert (HB : fe_has_fs env = true) by (unfold fs_total in T; split_total T; auto).
+  unfold malformed_basic in M. simpl in M.
+  unfold serve_dav. rewrite HB. simpl. apply finish_refused.
+  apply orb_true_iff in M. destruct M as [M|MO].
+  apply orb_true_iff in M. destruct M as [M|MX].
+  apply orb_true_iff in M. destruct M as [MH|MC].
+  - unfold m_headers in MH. simpl in MH. apply (generic_headers (dav_backend env) r true).
+    revert MH. clear. destruct (bad_depth r), (m_is r "PROPFIND"), (copy_or_move r), (bad_overwrite r), (bad_dest r); simpl; auto.
+  - unfold m_ctype in MC. simpl in MC. unfold xml_required in MC. simpl in MC. clean MC.
+    apply orb_true_iff in MC. destruct MC as [MC|MK].
+    apply orb_true_iff in MC. destruct MC as [MC|MF].
+    + apply andb_true_iff in MC. destruct MC as [RQ NX]. apply negb_true_iff in NX.
+      apply generic_proppatch; auto. apply proppatch_failed; auto.
+    + btrue MF. apply generic_propfind_ctype; auto.
+    + apply andb_true_iff in MK. destruct MK as [MK CT]. meth MK E.
+      rewrite internal_mkcol by auto. simpl. unfold dav_mkcol. rewrite CT. simpl. apply hrefused_code; lia.
+  - unfold m_xml in MX. simpl in MX. apply andb_true_iff in MX. destruct MX as [RD MX].
+    unfold xml_read, xml_required in RD. simpl in RD. clean RD.
+    apply orb_true_iff in RD. destruct RD as [RQ|RP].
+    + apply generic_proppatch; auto. apply proppatch_failed. right.
+      pose proof RQ as E. apply m_is_eq in E.
+      unfold xml_required, expected_root, m_is in MX. simpl in MX. rewrite E in MX. simpl in MX.
+      destruct (r_xml r) as [| |[ns l a k| |]]; auto.
+    + apply andb_true_iff in RP. destruct RP as [RP X]. pose proof RP as E. apply m_is_eq in E.
+      apply generic_propfind_xml; auto.
+      unfold xml_required, expected_root, m_is in MX. simpl in MX. rewrite E in MX. simpl in MX. exact MX.
+  - unfold m_object in MO. simpl in MO. clean MO. discriminate.
+Qed.
+
+Lemma principal_basic_refused r :
+  malformed_basic (CPrincipal false r) = true -> refused (serve_principal false r).
+Proof.
+  intros M. unfold malformed_basic in M. simpl in M.
+  assert (PF : r_method r = "PROPFIND" /\ (decode_propfind_request r = None \/ bad_depth r = true)).
+  { apply orb_true_iff in M. destruct M as [M|MO].
+    apply orb_true_iff in M. destruct M as [M|MX].
+    apply orb_true_iff in M. destruct M as [MH|MC].
+    - unfold m_headers in MH. simpl in MH. clean MH.
+      apply andb_true_iff in MH. destruct MH as [BD MP]. apply m_is_eq in MP. auto.
+    - unfold m_ctype in MC. simpl in MC. unfold xml_required in MC. simpl in MC. clean MC.
+      apply andb_true_iff in MC. destruct MC as [MC NE]. apply andb_true_iff in MC. destruct MC as [MP NX].
+      apply negb_true_iff in NE, NX. apply m_is_eq in MP. split; auto. left. apply decode_propfind_none. left; auto.
+    - unfold m_xml in MX. simpl in MX. apply andb_true_iff in MX. destruct MX as [RD MX].
+      unfold xml_read, xml_required in RD. simpl in RD. clean RD.
+      apply andb_true_iff in RD. destruct RD as [RP X]. pose proof RP as E. apply m_is_eq in E.
+      split; auto. left. apply decode_propfind_none. right. split; auto.
+      unfold xml_required, expected_root, m_is in MX. simpl in MX. rewrite E in MX. simpl in MX.
+      destruct (r_xml r) as [| |t]; try discriminate; auto.
+      right. exists t. split; auto. destruct t; auto. apply negb_true_iff in MX. exact MX.
+    - unfold m_object in MO. simpl in MO. clean MO. discriminate. }
+  destruct PF as [E PF]. unfold serve_principal. rewrite E.
+  replace (String.eqb "PROPFIND" "OPTIONS") with false by reflexivity.
+  replace (String.eqb "PROPFIND" "PROPFIND") with true by reflexivity.
+  rewrite finish_bad_request.
+  destruct PF as [PF|PF].
+  - rewrite PF. exists 400. repeat split; lia.
+  - destruct (decode_propfind_request r); [|exists 400; repeat split; lia].
+    unfold bad_depth in PF. apply andb_true_iff in PF. destruct PF as [P1 P2].
+    rewrite P1. destruct (parse_depth (r_depth r)); [discriminate|]. simpl.
+    exists 400. repeat split; lia.
+Qed.
+
+Theorem malformed_basic_refused c :
+  backend_total c = true -> malformed_basic c = true -> refused (serve c).
+Proof.
+  destruct c as [env r|env r|env r|n r]; simpl; intros T M.
+  - apply dav_basic_refused; auto.
+  - apply cal_basic_refused; auto.
+  - apply card_basic_refused; auto.
+  - destruct n; [discriminate|]. apply principal_basic_refused; auto.
+Qed.
